@@ -25,12 +25,14 @@ def mk_bm(coords, shape2d, data, weights, region, shape, spacing, adjust, centre
                   f"{C.enc(centre)} {C.enc(drop)} {C.enc(unc)}"}
 
 
-def mk_v2w(comps, kind):
-    # one op line per component (components are independent)
+def mk_v2w(comps, kind, tol=None, which=0):
+    """variance_to_weights on a tuple of len(comps) arrays (a bare array when there is one); the model is asked about component
+    `which` (components are independent).  tol=None: the default tolerance."""
     def tok(x):
         return "nan" if (isinstance(x, float) and math.isnan(x)) else C.enc(x)
-    return {"fn": "v2w", "kind": kind, "args": [comps],
-            "op": "v2w [ " + " ".join(tok(x) for x in comps[0]) + " ]", "extra_ops": comps[1:]}
+    lst = "[ " + " ".join(tok(x) for x in comps[which]) + " ]"
+    return {"fn": "v2w", "kind": kind, "args": [comps, tol, which],
+            "op": ("v2w " + lst) if tol is None else f"v2w_tol {lst} {C.enc(tol)}"}
 
 
 def corpus():
@@ -47,7 +49,9 @@ def corpus():
           mk_bm([es, ns], [7], [d1], None, [0, 4, 0, 2], None, [1.0, 2.0], "spacing", False, True, True, "corpus-uncertainty-noweights-tuple"),
           mk_bm([es, ns], [7], [d1, d2], None, [0, 4, 0, 2], None, [1.0, 2.0], "spacing", False, True, True, "corpus-uncertainty-noweights-tuple"),
           mk_bm([es, ns], [7], [d1, d2], None, [0, 4, 0, 2], None, [1.0, 2.0], "spacing", False, True, False, "corpus-noweights-tuple"),
+          mk_bm([es, ns], [7], [d1, d2], [[1.0] * 7, [0.25] * 7], [0, 4, 0, 2], None, [1.0, 2.0], "spacing", False, True, True, "corpus-uncertainty-constw"),
           mk_v2w([[0.0, 2.0, float("nan"), 4.0, 1e-16, 1e-15, 2e-15]], "v2w-corpus"),
+          mk_v2w([[1.0, 2.0, 1e-7, 4.0], [3e-7, 0.5, 2.0]], "v2w-tuple-tol", 1e-6, 0), mk_v2w([[1.0, 2.0, 1e-7, 4.0], [3e-7, 0.5, 2.0]], "v2w-tuple-tol", 1e-6, 1),
           mk_v2w([[0.0, 0.0]], "v2w-all-zero"), mk_v2w([[float("nan")]], "v2w-nan"), mk_v2w([[5.0]], "v2w-single")]
     return cs
 
@@ -64,7 +68,14 @@ def generate(rng, tier):
                 u = rng.random()
                 comp.append(0.0 if u < 0.15 else float("nan") if u < 0.25 else rng.choice([1e-16, 1e-15, 5e-16, 2e-15, 1e-14]) if u < 0.4
                             else rng.randint(1, 4096) / 64.0 * rng.choice([1, 1e-3, 1e3]))
-            cs.append(mk_v2w([comp], "v2w"))
+            if rng.random() < 0.4:
+                # several components in one call, and/or a user tolerance: every component must be treated with the SAME rule
+                comps = [comp] + [[rng.choice([0.0, 1e-9, 3e-7, 1e-16, rng.randint(1, 512) / 64.0]) for _ in range(rng.randint(1, 8))]
+                                  for _ in range(rng.randint(1, 2))]
+                tol = rng.choice([None, 1e-6, 1e-3, 0.25])
+                cs.append(mk_v2w(comps, "v2w-tuple" + ("" if tol is None else "-tol"), tol, rng.randrange(len(comps))))
+            else:
+                cs.append(mk_v2w([comp], "v2w", rng.choice([None, None, 1e-6])))
             continue
         reg, es, ns = B.cloud(rng, maxpts)
         npts = len(es)
@@ -72,35 +83,43 @@ def generate(rng, tier):
         coords = [es, ns] + ([B.values(rng, npts)] if rng.random() < 0.3 else [])
         ncomp = rng.choice([1, 1, 2, 3])
         data = [B.values(rng, npts) for _ in range(ncomp)]
-        mode = rng.choice(["none", "none", "unc", "wvar", "unc-noweights", "unc-noweights-tuple", "none-tuple"])
+        mode = rng.choice(["none", "none", "unc", "wvar", "unc-noweights", "unc-noweights-tuple", "none-tuple", "unc-constw", "wvar-constw"])
         weights = [B.pos_weights(rng, npts) for _ in range(ncomp)] if mode in ("unc", "wvar") else None
+        if mode.endswith("-constw"):     # all data share one uncertainty / unit weights: still "weights given"
+            weights = [[rng.choice([1.0, 0.25, 4.0])] * npts for _ in range(ncomp)]
         shape2d = [npts]
         if npts % 2 == 0 and rng.random() < 0.3:
             shape2d = [2, npts // 2]
         cs.append(mk_bm(coords, shape2d, data, weights, region, shape, spacing, adjust, rng.random() < 0.4, rng.random() < 0.5,
-                        mode in ("unc", "unc-noweights", "unc-noweights-tuple"), "blockmean-" + mode))
+                        mode in ("unc", "unc-noweights", "unc-noweights-tuple", "unc-constw"), "blockmean-" + mode))
     return cs
 
 
 def impl(case):
     a = case["args"]
     if case["fn"] == "v2w":
-        comp = np.array(a[0][0])
-        before = comp.copy()
-        r = C.call(vd.variance_to_weights, comp)
+        comps, tol, which = a
+        kw = {} if tol is None else {"tol": tol}
+        arrs = tuple(np.array(c) for c in comps)
+        before = [x.copy() for x in arrs]
+        r = C.call(vd.variance_to_weights, arrs[0] if len(arrs) == 1 else arrs, **kw)
         if C.is_err(r):
             return r
-        same = np.array_equal(before, comp, equal_nan=True)
-        ro = np.array(a[0][0])
-        ro.setflags(write=False)
-        r2 = C.call(vd.variance_to_weights, ro)
+        same = all(np.array_equal(b, x, equal_nan=True) for b, x in zip(before, arrs))
+        ro = tuple(np.array(c) for c in comps)
+        for x in ro:
+            x.setflags(write=False)
+        r2 = C.call(vd.variance_to_weights, ro[0] if len(ro) == 1 else ro, **kw)
         if C.is_err(r2):
             return ["err", "ReadOnlyInput:" + r2[1]]
         if not same:
             return ["err", "MutatedInput"]
-        if r.shape != comp.shape:
+        if len(arrs) > 1 and (not isinstance(r, tuple) or len(r) != len(arrs)):
+            return ["err", "NotOneOutputPerComponent"]
+        out = r[which] if len(arrs) > 1 else r
+        if out.shape != arrs[which].shape:
             return ["err", "ShapeChanged"]
-        return [float(v) for v in r]
+        return [float(v) for v in out]
     coords, shape2d, data, weights, region, shape, spacing, adjust, centre, drop, unc = a
     key = case["op"][-60:]
     cs = tuple(C.mkarr(c, shape2d, f"{key}c{i}") for i, c in enumerate(coords))
@@ -148,12 +167,12 @@ def oracle(case, io):
     if case["fn"] == "v2w":
         if C.is_err(io):
             return "variance_to_weights failed or modified its input: " + io[1]
-        exp = _v2w_expected(a[0][0])
+        exp = _v2w_expected(a[0][a[2]]) if a[1] is None else _v2w_expected(a[0][a[2]], C.fq(a[1]))
         if len(io) != len(exp):
             return "shape not preserved"
         for k, (x, y) in enumerate(zip(io, exp)):
             if not C.close(x, y, 1e-12):
-                return f"weight {k} = {x} but rule gives {float(y)} for variance {a[0][0][k]}"
+                return f"weight {k} = {x} but rule gives {float(y)} for variance {a[0][a[2]][k]} (component {a[2]} of {len(a[0])}, tol {a[1]})"
         if not all(0 < x <= 1 for x in io):
             return "weight outside (0, 1]"
         if io and max(io) != 1.0:
